@@ -53,21 +53,26 @@ func wgPairing(c *an.Ctx, s *sched, rule string) {
 	n, ok := an.ConstInt(add.(ssa.CallInstruction).Common().Args[1])
 	c.Check(ok && n == 1, rule, an.Short(f)+":Add", add.Pos(), "Add(1) per launched stage dominates the go statement", "the launch is not preceded by Add(1)")
 	addDonePairing(c, rule, key)
-	// Wait: outside the scheduling loop, dominates every return
+	// Wait: outside the scheduling loop, dominates every return (of the function that holds the scheduling loop)
+	wf := f
+	if s.outerFn != nil {
+		wf = s.outerFn
+	}
 	var waits []ssa.CallInstruction
-	for _, ci := range an.CallsIn(f, fnWgWait) {
+	for _, ci := range an.CallsIn(wf, fnWgWait) {
 		if groupKey(ci.Common().Args[0]) == key {
 			waits = append(waits, ci)
 		}
 	}
 	if len(waits) == 0 {
-		c.Bad(rule, an.Short(f)+":Wait", f.Pos(), "Schedule never waits for the stages it launched")
+		c.Bad(rule, an.Short(wf)+":Wait", wf.Pos(), "Schedule never waits for the stages it launched")
 		return
 	}
 	for _, w := range waits {
-		inLoop := s.outer != nil && s.outer.Blocks[w.Block()] || s.inner.Blocks[w.Block()]
-		c.Check(!inLoop, rule, an.Short(f)+":Wait", w.Pos(), "Wait is outside the scheduling loop", "Wait is inside the scheduling loop")
+		inLoop := s.outer != nil && s.outer.Blocks[w.Block()] || (wf == s.loopFn && s.inner.Blocks[w.Block()])
+		c.Check(!inLoop, rule, an.Short(wf)+":Wait", w.Pos(), "Wait is outside the scheduling loop", "Wait is inside the scheduling loop")
 	}
+	f = wf
 	for _, r := range an.Returns(f) {
 		dom := false
 		for _, w := range waits {
@@ -82,6 +87,9 @@ func wgPairing(c *an.Ctx, s *sched, rule string) {
 // loopExits checks C03.3.
 func loopExits(c *an.Ctx, s *sched, rule string) {
 	f := s.launchFn
+	if s.outerFn != nil {
+		f = s.outerFn
+	}
 	if s.outer == nil {
 		c.Und(rule, an.Short(f)+":outer-loop", f.Pos(), "no scheduling loop around the per-stage loop")
 		return
@@ -116,7 +124,7 @@ func loopExits(c *an.Ctx, s *sched, rule string) {
 	if cancelBranch == nil {
 		c.Bad(rule, an.Short(f)+":cancel-test", f.Pos(), "the scheduling loop never loads the cancelled flag: a cancelled run keeps scheduling")
 	} else {
-		okDom := cancelBranch.Dominates(s.inner.Header) && !s.inner.Blocks[cancelBranch]
+		okDom := cancelBranch.Dominates(s.innerAnchor) && !(s.outerFn == s.loopFn && s.inner.Blocks[cancelBranch])
 		c.Check(okDom, rule, an.Short(f)+":cancel-test", cancelBranch.Instrs[len(cancelBranch.Instrs)-1].Pos(),
 			"the cancelled flag is tested on every pass before the per-stage loop", "the cancelled flag is not tested on every pass before stages are launched")
 		// cancelled==1 must leave the loop
